@@ -68,6 +68,14 @@ class RuleResult:
 def generic_name(fn):
     """LabeledDirectedGraph<unsigned int>::addEdge -> LabeledDirectedGraph<*>::addEdge ;
     algorithms::findGeodesics<BaseGraph::LabeledDirectedGraph, int> -> algorithms::findGeodesics<*>"""
+    import re as _re
+    ops = {}
+
+    def _hide(mo):
+        k = '\x00%d\x00' % len(ops)
+        ops[k] = mo.group(0)
+        return k
+    fn = _re.sub(r'operator\s*(<<=|>>=|<<|>>|<=|>=|->|<|>)', _hide, fn)
     out = []
     depth = 0
     for ch in fn:
@@ -79,7 +87,10 @@ def generic_name(fn):
             depth -= 1
         elif depth == 0:
             out.append(ch)
-    return ''.join(out)
+    r = ''.join(out)
+    for k, v in ops.items():
+        r = r.replace(k, v)
+    return r
 
 
 def load_known():
